@@ -351,6 +351,10 @@ def expr_features(e, out: set, ctx="value"):
             if _conv_risky(ctype(a), pt):
                 out.add("signed_widen_to_unsigned")
         expr_features(e[4], out)
+        if _has_hybrid(e[4]):
+            # a pending call / postfix operation inside the VALUE is pulled in front of the whole statement-expression,
+            # i.e. it runs BEFORE the void call although C evaluates it after
+            out.add("hybrid_in_seqexpr_value")
     elif k == "callx":
         for a, pt in zip(e[3], XCALL_SIGS[e[1]][1]):
             expr_features(a, out)
